@@ -45,6 +45,13 @@ impl TopicManager {
     /// Gets a topic.
     pub fn get_topic(&self, name: &TopicName) -> Result<Arc<Topic>, GetTopicError> {
         let state = self.state.read();
+        #[cfg(deltio_verif)]
+        crate::verif::emit("m.gt", |_| {
+            serde_json::json!({
+                "name": name.to_string(),
+                "ti": state.topics.get(name).map(|t| t.internal_id),
+            })
+        });
         state
             .topics
             .get(name)
@@ -91,6 +98,16 @@ impl TopicManager {
             .collect::<Vec<_>>();
 
         let next_page = paging.next_page_from_slice_result(&topics_for_project);
+        #[cfg(deltio_verif)]
+        crate::verif::emit("m.lt", |_| {
+            serde_json::json!({
+                "project": project_id.to_string(),
+                "skip": skip_value,
+                "size": paging.size(),
+                "out": topics_for_project.iter().map(|t| t.internal_id).collect::<Vec<_>>(),
+                "next": next_page.offset(),
+            })
+        });
         let page = TopicsPage::new(topics_for_project, next_page.offset());
         Ok(page)
     }
@@ -126,8 +143,17 @@ impl State {
             let topic = Arc::new(Topic::new(delegate, topic_info, internal_id));
 
             entry.insert(Arc::clone(&topic));
+            #[cfg(deltio_verif)]
+            crate::verif::emit("m.ct", |_| {
+                serde_json::json!({"name": topic.name.to_string(), "ti": internal_id, "ok": true})
+            });
             return Ok(topic);
         }
+
+        #[cfg(deltio_verif)]
+        crate::verif::emit("m.ct", |_| {
+            serde_json::json!({"name": name.to_string(), "ti": null, "ok": false})
+        });
 
         Err(CreateTopicError::AlreadyExists)
     }
@@ -142,6 +168,13 @@ impl TopicManagerDelegate {
     /// Delete the topic from the state.
     pub fn delete(&self, topic_name: &TopicName) {
         let mut state = self.state.write();
+        #[cfg(deltio_verif)]
+        crate::verif::emit("m.rt", |_| {
+            serde_json::json!({
+                "name": topic_name.to_string(),
+                "ti": state.topics.get(topic_name).map(|t| t.internal_id),
+            })
+        });
         state.topics.remove(topic_name);
     }
 }
